@@ -103,6 +103,9 @@ def queries(tier, seed):
         for sig in SIGS:
             qs.append(q_bar(sig, "n3_ts", 2, None, False))
             qs.append(q_bar(sig, "n1_ts_mid", 2, None, True))
+        for key in KEYS:
+            qs.append(q_bar((4, 4), "ts_n1", 3, key, True))
+            qs.append(q_bar((6, 8), "n2", 3, key, False))
     return qs
 
 
